@@ -6,7 +6,7 @@
   Every function here returns `Except Err α`; `.error (.panic site)` exactly where the Go code reaches
   a panic (or, for the three recursions over auth events, a recursion deeper than the number of events
   supplied, i.e. one that does not end: the Go runtime then dies of stack exhaustion, which no
-  `recover()` catches — the case before fix c5e96b7 for cyclic auth_events).  `VProps/C18.lean` proves
+  `recover()` catches — the case before fix 0d78b57 for cyclic auth_events).  `VProps/C18.lean` proves
 
     (a) refinement: whenever no site fires, the result is exactly that of `VModel.StateRes` (so the
         C10 / C11 theorems about the model transfer unchanged), and
@@ -62,7 +62,7 @@ def forSites (f : Event → Except Err Unit) : List Event → Except Err Unit
 
 /-! ## The three recursions over auth events (S4–S6)
 
-  Until fix c5e96b7 these were unguarded: cyclic `auth_events` (possible in room versions 1 and 2, whose event IDs are
+  Until fix 0d78b57 these were unguarded: cyclic `auth_events` (possible in room versions 1 and 2, whose event IDs are
   chosen by the sender) sent each of them into a recursion that never returned (fatal stack overflow / a hang).
   They are kept as sites — `none` = the recursion is deeper than the fuel, which stands for "does not return" — and
   `VProofs/StateResNoPanic.lean` proves the fuel sufficient for EVERY input, cyclic or not. -/
